@@ -17,7 +17,9 @@ import (
 	"fmt"
 	"reflect"
 	"strings"
+	"sync"
 	"testing"
+	"time"
 
 	"github.com/NethermindEth/juno/blockchain"
 	"github.com/NethermindEth/juno/core"
@@ -255,8 +257,15 @@ func conformOne(in input, b []step, ns bool, be string, seed int64) (int, *vh.Di
 			if qerr != nil {
 				r.kind = "error"
 			}
-			if s.Res.Kind == "ok" && qerr == nil && !eqPairs(s.Post.Found, pairs(found)) {
-				return steps, div(i, "found-events", s.Post.Found, pairs(found))
+			// (a block stored without transactions has no event to be found)
+			var wantFound [][]int
+			for _, id := range s.Post.Found {
+				if !bareID(w.off, id[0], id[1]) {
+					wantFound = append(wantFound, id)
+				}
+			}
+			if s.Res.Kind == "ok" && qerr == nil && !eqPairs(wantFound, pairs(found)) {
+				return steps, div(i, "found-events", wantFound, pairs(found))
 			}
 		case "Prune":
 			j := i + 1
@@ -319,6 +328,19 @@ func conformOne(in input, b []step, ns bool, be string, seed int64) (int, *vh.Di
 			if fl := w.memFloor(); fl != b[last].Post.Floor {
 				return steps, div(last, "retention-floor", b[last].Post.Floor, fl)
 			}
+			// values returned by earlier reads must not have changed since
+			var alias string
+			w.checkRetained(func(sym, detail string, _ error) {
+				if alias == "" {
+					alias = sym + ": " + detail
+				}
+			})
+			if alias != "" {
+				d := div(last, "retained-result", nil, alias)
+				d.Key = strings.SplitN(alias, ":", 3)[0] + ":" + strings.SplitN(alias, ":", 3)[1]
+				return steps, d
+			}
+			w.retain(w.node.BC)
 		}
 	}
 	return steps, nil
@@ -798,4 +820,157 @@ func TestCrashProbe(t *testing.T) {
 		w.close()
 	}
 	out.Done(5, 5)
+}
+
+
+// TestCrashConcurrent: readers run CONCURRENTLY with a writer that stores blocks (across the bloom
+// window boundary too) for the writer's whole lifetime, judged by the invariant of the property:
+// whatever height a reader observes, that head block is fully present — header by number and hash,
+// transactions, receipts, lookups, state update, commitments, classes, its event through the
+// event index — and rows of a block are never visible before the height that announces it.
+func TestCrashConcurrent(t *testing.T) {
+	if !vh.Enabled() {
+		t.Skip()
+	}
+	var in input
+	if err := vh.Input(&in); err != nil {
+		t.Fatal(err)
+	}
+	out := vh.NewResult()
+	defer out.Write()
+	defer machinery(out)
+	startDeadline(out, in.DeadlineSec)
+	if len(in.NewState) == 0 {
+		in.NewState = []bool{false, true}
+	}
+	rounds := 0
+	for _, ns := range in.NewState {
+		for _, c := range []consts{
+			{MaxH: 30, MaxVer: 2, InitH: 1, Boundary: 99, Genesis: true},
+			{MaxH: 12, MaxVer: 2, InitH: 0, Boundary: 2, Genesis: false},
+		} {
+			setCurrent(vh.J{"concurrent": c.Boundary, "newState": ns})
+			w, err := newWorld(c, in.seedFor(rounds), ns, "memory", false)
+			if errors.Is(err, errOnRealCode) {
+				out.Diverge(vh.Divergence{Key: "prune-fails-on-valid-chain", What: err.Error(), Input: getCurrent()})
+				continue
+			}
+			if err != nil {
+				panic(err)
+			}
+			concurrentStores(w, out, ns)
+			w.close()
+			rounds++
+		}
+	}
+	out.Count("concurrent_rounds", rounds)
+	out.Done(rounds, rounds)
+}
+
+func concurrentStores(w *world, out *vh.Result, ns bool) {
+	var (
+		mu    sync.Mutex
+		found = map[string]string{}
+		reads int
+	)
+	add := func(sym, detail string, _ error) {
+		mu.Lock()
+		if _, ok := found[sym]; !ok {
+			found[sym] = detail
+		}
+		mu.Unlock()
+	}
+	stop := make(chan struct{})
+	var wg sync.WaitGroup
+	guard := func(name string, fn func()) {
+		wg.Add(1)
+		go func() {
+			defer wg.Done()
+			defer func() {
+				if p := recover(); p != nil {
+					add("concurrent:panic:"+name, fmt.Sprint(p), nil)
+				}
+			}()
+			fn()
+		}()
+	}
+	bc := w.node.BC
+	for g := 0; g < 3; g++ {
+		guard(fmt.Sprintf("reader-%d", g), func() {
+			for {
+				select {
+				case <-stop:
+					return
+				default:
+				}
+				// rows first, height second: a row of block h+1 must not be visible before the height
+				h0, err := bc.Height()
+				if err != nil {
+					continue
+				}
+				_, rowErr := bc.BlockHeaderByNumber(h0 + 1)
+				h1, _ := bc.Height()
+				if rowErr == nil && h1 < h0+1 {
+					add("concurrent:row-before-height", fmt.Sprintf("header of block %d readable while the height is still %d", h0+1, h1), nil)
+				}
+				// the announced head is complete (the twin stores every block first)
+				w.sweepBlock(bc, w.raw, h1, func(sym, detail string, e error) { add("concurrent:"+sym, detail, e) })
+				if hd, err := w.twin.BC.BlockHeaderByNumber(h1); err == nil {
+					if id, ok := w.idOf(hd.Hash); ok && !bareID(w.off, id.N, id.V) {
+						if !w.eventFound(bc, id, h1) {
+							add("concurrent:events:false-negative", fmt.Sprintf("event of head block %d not returned", h1), nil)
+						}
+					}
+				}
+				mu.Lock()
+				reads++
+				mu.Unlock()
+			}
+		})
+	}
+	guard("writer", func() {
+		for w.twinHeight() < w.c.MaxH {
+			id, b, err := w.nextBlock()
+			if err != nil {
+				add("concurrent:build", err.Error(), err)
+				return
+			}
+			if err := w.twin.StoreBuilt(b); err != nil {
+				add("concurrent:twin", err.Error(), err)
+				return
+			}
+			if err := w.node.StoreBuilt(b); err != nil {
+				add("concurrent:store-fails", fmt.Sprintf("store of %v: %v", id, err), err)
+				return
+			}
+			w.idsMu.Lock()
+			w.ver[id.N]++
+			w.idsMu.Unlock()
+		}
+	})
+	// wait for the writer (it is one of the guarded goroutines): poll its progress
+	for w.twinHeight() < w.c.MaxH {
+		mu.Lock()
+		failed := len(found) > 0 && (found["concurrent:store-fails"] != "" || found["concurrent:build"] != "" || found["concurrent:twin"] != "")
+		mu.Unlock()
+		if failed {
+			break
+		}
+		time.Sleep(time.Millisecond)
+	}
+	time.Sleep(5 * time.Millisecond)
+	close(stop)
+	wg.Wait()
+	for _, v := range w.evaluate(bc, w.raw) {
+		add("concurrent:after:"+v.sym, v.detail, v.err)
+	}
+	out.Count("concurrent_reads", reads)
+	if reads < 10 {
+		panic(fmt.Sprintf("crash engine: the concurrent readers made only %d reads while the writer ran", reads))
+	}
+	for sym, detail := range found {
+		key := "crash-inconsistent:" + sym
+		out.Diverge(vh.Divergence{Key: key, Input: getCurrent(),
+			What: fmt.Sprintf("[%s] newState=%v: reader concurrent with a writer storing blocks %d..%d: %s", key, ns, w.c.InitH+1, w.c.MaxH, detail)})
+	}
 }
